@@ -45,7 +45,8 @@ class CHECK(Check):
             "the window, one character corrupted, blank, garbage) with and without final newline; plus every content of "
             "<=3 lines over a 6-line pool for 12 fixed register lists (complete). A third of the contents are read from a file on disk (utf-8) instead of in memory. Observed: type and data of every "
             "element of RegisterFile.read(content).data. non-trivial = at least one typed and one default element or "
-            ">= 2 candidate types match a line; distinct = hash")
+            ">= 2 candidate types match a line; distinct = hash"
+            " Later additions: register class hierarchies, twin definitions (same identifier and window), fields declared out of column order, a third of the cases read from disk.")
 
     def gen(self, tier, rng):
         # complete small scope
